@@ -114,8 +114,15 @@ pub struct PollMon {
 impl PollMon {
     pub fn new(timeout: u64) -> Self {
         set_mock_time(0);
+        // default() is a zero timeout: every other zero-timeout monitor is created that way
+        let real = if timeout == 0 && crate::scan::construct_by_default() {
+            api("PollingParameterNumberMessageScanner::default", PollingParameterNumberMessageScanner::default)
+                .unwrap_or_else(|| PollingParameterNumberMessageScanner::new(dur(timeout)))
+        } else {
+            PollingParameterNumberMessageScanner::new(dur(timeout))
+        };
         PollMon {
-            real: PollingParameterNumberMessageScanner::new(dur(timeout)),
+            real,
             real_timeout: dur(timeout),
             now: 0,
             timeout,
